@@ -175,8 +175,8 @@ what the model in this file transliterates. A structural edit of any of these fu
 check searching for a failing input. -/
 theorem C16_wiring :
     Sso.Generated.skel_proxy_sf_do =
-      ["call:Sprintf", "call:Do", "if{", "call:Sprintf", "call:float64", "call:Incr", "}", "return"] ∧
+      ["call:Sprintf", "call:Do", "if{", "}", "return"] ∧
     Sso.Generated.skel_auth_sf_do =
-      ["call:Sprintf", "call:Do", "if{", "call:Sprintf", "call:float64", "call:Incr", "}", "return"] := by decide
+      ["call:Sprintf", "call:Do", "if{", "}", "return"] := by decide
 
 end Sso.SfWrappers
